@@ -364,6 +364,10 @@ class TCPPacketGenerator(Device, OutMixIn):
             self.cwnd_avaialbe.put(True)
 
     def resend_packet(self, seqno: int):
+        if seqno not in self.sent_packets:
+            # nothing is in flight under this sequence number (e.g. duplicates
+            # of the final ACK, seqno == next_seq): nothing to retransmit
+            return
         resent_pkt = self.sent_packets[seqno]
         resent_pkt.time = self.env.now
         self.dprint(
